@@ -33,6 +33,7 @@
 #include <netinet/tcp.h>
 #include <arpa/inet.h>
 #include <errno.h>
+#include <signal.h>
 
 using namespace tbox::terminal;
 using tbox::event::Loop;
@@ -1126,7 +1127,11 @@ struct TcpWorld {
                 aborted = true;
                 return;
             }
-            for (auto &c : clients) drain(c);
+            for (auto &c : clients) {
+                size_t b = c.rx.size();
+                drain(c);
+                if (vh::st().args.verbose && c.rx.size() != b) fprintf(stderr, "  pump: c%zu got \"%s\"%s\n", (size_t)(&c - &clients[0]), esc(c.rx.substr(b)).substr(0, 200).c_str(), c.eof ? " EOF" : "");
+            }
         }
     }
 
@@ -1135,7 +1140,12 @@ struct TcpWorld {
         char b[4096];
         for (;;) {
             ssize_t n = ::recv(c.fd, b, sizeof b, MSG_DONTWAIT);
-            if (n > 0) { if (c.rx.size() < (8u << 20)) c.rx.append(b, (size_t)n); continue; }
+            if (n > 0) {
+                if (c.rx.size() < (8u << 20)) c.rx.append(b, (size_t)n);
+                int one = 1;
+                ::setsockopt(c.fd, IPPROTO_TCP, TCP_QUICKACK, &one, sizeof one);    // not sticky: re-arm after every read
+                continue;
+            }
             if (n == 0) { c.eof = true; }
             else if (errno == ECONNRESET || errno == EPIPE) { c.reset = true; c.eof = true; }
             break;
@@ -1153,6 +1163,9 @@ struct TcpWorld {
         if (::connect(fd, (struct sockaddr *)&a, sizeof a) != 0) { ::close(fd); return -1; }
         int one = 1;
         ::setsockopt(fd, IPPROTO_TCP, TCP_NODELAY, &one, sizeof one);
+        // the server side keeps Nagle on: without immediate ACKs its second small write (the prompt) would sit in the
+        // kernel until the delayed-ACK timer fires, i.e. in real time the harness does not otherwise spend
+        ::setsockopt(fd, IPPROTO_TCP, TCP_QUICKACK, &one, sizeof one);
         return fd;
     }
 
@@ -1306,6 +1319,35 @@ struct TcpWorld {
         return true;
     }
 
+    //! everything a clean client is entitled to has arrived (only used to decide how long to keep reading)
+    bool satisfied(const Client &c) const {
+        if (c.wild) return true;
+        size_t must = 0;
+        for (auto &it : c.items) if (it.must) ++must;
+        if (count_sub(c.rx, "<R:") < must) return false;
+        if (telnet) {
+            if (count_sub(c.rx, "# ") < (size_t)c.enters + 1) return false;
+            if (count_sub(c.rx, "\xff\xfc") < (size_t)c.donts) return false;
+            if (count_sub(c.rx, "\xff\xf1") < (size_t)c.nops) return false;
+        }
+        if (c.sends_exit && !c.eof) return false;
+        return true;
+    }
+
+    //! keep the loop turning until the clean clients have their replies; bounded generously (2 s of real time, reached
+    //! only when something is really missing - the verdict is then on the content, not on the clock)
+    void settle() {
+        for (int i = 0; i < 200 && !aborted; ++i) {
+            bool all = true;
+            for (auto &c : clients) if (c.clean && c.fd >= 0 && !satisfied(c)) all = false;
+            if (all) return;
+            pump(1);
+            struct timespec ts = {0, 10 * 1000 * 1000};
+            nanosleep(&ts, nullptr);
+            vh::counter("tcp_settle_waits_10ms");
+        }
+    }
+
     void check_clean(Client &c, size_t idx) {
         std::string who = vh::fmt("client %zu (%s) script: %s reply-stream(tail): \"%s\"", idx, telnet ? "telnet" : "tcprpc", c.script.substr(0, 1500).c_str(),
                                   esc(c.rx.size() > 500 ? c.rx.substr(c.rx.size() - 500) : c.rx).c_str());
@@ -1368,6 +1410,7 @@ struct TcpWorld {
             vh::counter("tcp_segments");
             vh::counter("tcp_bytes", seg.size());
             sig.add(seg);
+            if (vh::st().args.verbose) fprintf(stderr, "write c%zu \"%s\"\n", (size_t)(&c - &clients[0]), esc(seg).c_str());
             if (!write_all(c, seg)) {
                 if (aborted) break;
                 if (c.clean && !c.sends_exit) vh::viol(std::string(telnet ? "telnet" : "tcprpc") + "/clean-session/write-failed", vh::fmt("errno=%d %s", errno, c.script.substr(0, 600).c_str()));
@@ -1383,13 +1426,14 @@ struct TcpWorld {
         for (auto &c : clients) if (!c.clean && c.fd >= 0 && !c.closed_by_us) break_off(c);
         pump(3);
         if (aborted) return;
-        for (int i = 0; i < 20 && !aborted; ++i) {
-            bool waiting = false;
-            for (auto &c : clients) if (c.clean && c.sends_exit && !c.eof) waiting = true;
-            if (!waiting) break;
-            pump(1);
-        }
+        settle();
         if (aborted) return;
+        if (vh::st().args.verbose)
+            for (size_t i = 0; i < clients.size(); ++i) {
+                std::string all;
+                for (auto &a : clients[i].atoms) all += a.bytes;
+                fprintf(stderr, "client %zu clean=%d eof=%d sent=\"%s\"\n   rx=\"%s\"\n", i, (int)clients[i].clean, (int)clients[i].eof, esc(all).c_str(), esc(clients[i].rx).c_str());
+            }
         for (size_t i = 0; i < clients.size(); ++i) if (clients[i].clean) check_clean(clients[i], i);
         // liveness: the server still serves a new client exactly
         Client lc;
@@ -1402,10 +1446,11 @@ struct TcpWorld {
             write_all(c, "/p 424242 ok\r\n");
             Args want; want.push_back("/p"); want.push_back("424242"); want.push_back("ok");
             bool seen = false;
-            for (int i = 0; i < 30 && !aborted && !seen; ++i) {
+            for (int i = 0; i < 200 && !aborted && !seen; ++i) {
                 pump(1);
                 std::vector<Args> got = parse_markers(c.rx);
                 seen = got.size() == 1 && got[0] == want;
+                if (!seen && i >= 3) { struct timespec ts = {0, 10 * 1000 * 1000}; nanosleep(&ts, nullptr); }
             }
             if (aborted) return;
             if (!seen) vh::viol(std::string(telnet ? "telnet" : "tcprpc") + "/liveness/probe-not-executed-after-traffic", "a fresh client's command was not executed; reply stream: " + esc(c.rx.substr(0, 300)));
@@ -1452,6 +1497,10 @@ void case_tcp(uint64_t, vh::Rng &rng, bool telnet) {
 }  // namespace
 
 int main(int argc, char **argv) {
+    // Writing to a connection the peer has reset raises SIGPIPE in BufferedFd (plain write()). cpp-tbox's own main
+    // module routes SIGPIPE to a warning handler (modules/main/run_in_*.cpp); the harness does the equivalent, so the
+    // process-level signal policy is not what this check judges (listed under assumptions).
+    signal(SIGPIPE, SIG_IGN);
     return vh::run(argc, argv, [](uint64_t idx, vh::Rng &rng) {
         const std::string &mode = vh::st().args.mode;
         if (mode == "editor") case_editor(idx, rng);
